@@ -455,13 +455,10 @@ func (e *env) upstreamNetwork(
 	}
 
 	// exchange performs one scripted exchange through ups.
-	seq := uint32(0)
-	mu := &sync.Mutex{}
 	probeExchange := func(ups *forward.UpstreamPlain, c *upCase) (own *upOwn, resp *dns.Msg, uniq string, xErr error, wit map[string]any) {
-		mu.Lock()
-		seq++
-		n := seq
-		mu.Unlock()
+		// One counter for both networks: the stub is shared, and so must be
+		// the name space.
+		n := e.upSeq.Add(1)
 
 		id := e.ids.get()
 		labels := [][]byte{[]byte(fmt.Sprintf("%s%07x", string("abcdef"[n%6]), n&0xfffffff)), probeLabels[1], probeLabels[2]}
